@@ -66,3 +66,27 @@ Proof.
   split; [intros H; apply PeanoNat.Nat.eqb_eq in H; rewrite H; auto|]. repeat split.
 Qed.
 Print Assumptions C03_content_exact.
+
+(* --- compositions --- *)
+From BW Require Import SpecTag SpecBlocks Merge Context.
+From BWP Require Import Compose_proofs.
+From Coq Require Import Permutation.
+(* End to end for a comment list - the parse succeeds iff the tags of all comments, in order, have a Dyck matching, and then the blocks are that matching sorted by start position. *)
+Theorem C03_end_to_end : forall cs bs,
+  parse_blocks_from_comments cs = Ok bs <->
+  exists ts bs0, ptags_from 0 cs = Ok ts /\ Dyck ts bs0 /\ bs = sort_blocks bs0.
+Proof. exact blocks_of_comments_iff. Qed.
+Print Assumptions C03_end_to_end.
+
+Theorem C03_end_to_end_err : forall cs,
+  parse_blocks_from_comments cs = Err E_PARSE <->
+  exists ts, ptags_from 0 cs = Ok ts /\ ~ exists bs0, Dyck ts bs0.
+Proof. exact blocks_of_comments_err_iff. Qed.
+Print Assumptions C03_end_to_end_err.
+
+Theorem C03_end_to_end_sorted : forall cs bs,
+  parse_blocks_from_comments cs = Ok bs ->
+  sorted_by_start bs /\
+  exists ts bs0, ptags_from 0 cs = Ok ts /\ Dyck ts bs0 /\ Permutation bs bs0.
+Proof. exact blocks_of_comments_sorted. Qed.
+Print Assumptions C03_end_to_end_sorted.
